@@ -22,7 +22,7 @@ func init() {
 			"(e) no early exit from the loops over accounts, relays, relay fan-out, secondary beacon nodes and preparation submitters (a failing validator/relay/node does not stop the others); " +
 			"(f) each proposal preparation takes ValidatorIndex from the accounts map key and FeeRecipient from the proposer config resolved for the account of the same iteration, and the preparation list has no skipped (nil) entries; " +
 			"(g) forwarded registrations skip controlled keys and copy the four message fields and signature of the same element. " +
-			"Added with the third seeding round: (i) the relay client cache is keyed by, and the client created for, the address asked for; (j) no registration/preparation fan-out runs under an errgroup (fail-fast) context. Added with the fourth seeding round: (k) a failed refresh keeps the configuration (shared with C12.d); (l) first matching proposer entry wins (shared with C10.c). Added with the fifth seeding round: (y) C12.l/m/j and C10.f/k (resolver side effects, inherited relays) are taken over: what the registration fan-out sends is what the resolvers return. Added with the sixth seeding round and the false-alarm regression: (y) C10.e (anchored specifiers) is taken over. NOT decided: histories of configuration changes (reuse is checked as a guard, not over sequences), relay-side acceptance, timing.",
+			"Added with the third seeding round: (i) the relay client cache is keyed by, and the client created for, the address asked for; (j) no registration/preparation fan-out runs under an errgroup (fail-fast) context. Added with the fourth seeding round: (k) a failed refresh keeps the configuration (shared with C12.d); (l) first matching proposer entry wins (shared with C10.c). Added with the fifth seeding round: (y) C12.l/m/j and C10.f/k (resolver side effects, inherited relays) are taken over: what the registration fan-out sends is what the resolvers return. Added with the sixth seeding round and the false-alarm regression: (y) C10.e (anchored specifiers) is taken over. Added with the eighth seeding round: (n) the key handed to ProposerConfig is never an account's own PublicKey() (also through copy(pubkey[:], …)). NOT decided: histories of configuration changes (reuse is checked as a guard, not over sequences), relay-side acceptance, timing.",
 		Technique: "AST loop-exit analysis by role (type of the ranged collection), SSA provenance of composite-literal fields and call arguments, guard/edge-deletion for the reuse condition, sparse-slice detection",
 		Rule:      "one obligation per loop (e), per literal field (a,f,g), per call argument (a,b,c), per cache guard/update (d); non-trivial = the construct exists and was analysed",
 	})
